@@ -18,8 +18,12 @@ import (
 
 // TestC01Deadline: a Tell whose context ends while the payload is still being handed to the transport fails;
 // the part that was already written must not reach a receiver as a message.
-func TestC01Deadline(t *testing.T) {
-	const sub = "C01.deadline_during_tell"
+func TestC01Deadline(t *testing.T) { deadlineDuringTell(t, "C01.deadline_during_tell") }
+
+// The same histories decide C09's "never silently truncated ... or delivered in part".
+func TestC09Deadline(t *testing.T) { deadlineDuringTell(t, "C09.deadline_during_tell") }
+
+func deadlineDuringTell(t *testing.T, sub string) {
 	ev.Rule(sub, "rapid: stacks whose top or middle layer streams or fragments a payload over time (QUIC, fragmenting, message-box, P2PKE over memory/UDP bases), two nodes, 3-12 tells of 20 KB-2 MB (capped by MTU; QUIC layers with the default and with a 2 MiB MTU) from 1-4 goroutines with context deadlines of 0-30 ms (so that many end mid-payload) mixed with tells that have time to finish. Oracle (ledger): every payload a receiver is handed is byte-for-byte a payload that was told to it - never a truncation, concatenation or mixture - whatever the Tell returned. non-trivial = at least one Tell ended by its deadline; distinct by (spec, sizes, deadlines)")
 	rapid.Check(t, func(t *rapid.T) {
 		var spec stack.Spec
